@@ -156,3 +156,63 @@ func VerifSel_Validate() {
 	}
 	verifrt.Reached("end-sel")
 }
+
+// VerifSel_DeepChain: the same equivalence for a recursion buried under N
+// nested explore clauses, for every N up to NEST (the wrapper kinds rotate
+// through all / index / fields / interpret-as / range / union from a chosen
+// start): the verdict must not depend on how deep the recursion sits.
+func VerifSel_DeepChain() {
+	ssb := builder.NewSelectorSpecBuilder(basicnode.Prototype.Any)
+	nest := verifrt.Choose("nesting", verifrt.Param("NEST", 40)+1)
+	start := verifrt.Choose("first-wrapper-kind", 6)
+	var limit selector.RecursionLimit
+	ok := true
+	if verifrt.Choose("limitKind", 2) == 0 {
+		limit = selector.RecursionLimitNone()
+		ok = false
+		verifrt.Cover("recursion-unbounded")
+	} else {
+		l := verifrt.I64("limit")
+		limit = selector.RecursionLimitDepth(l)
+		ok = l <= 100
+	}
+	spec := ssb.ExploreRecursive(limit, ssb.ExploreAll(ssb.ExploreRecursiveEdge()))
+	underIA := false
+	for i := 0; i < nest; i++ {
+		switch (start + i) % 6 {
+		case 0:
+			spec = ssb.ExploreAll(spec)
+		case 1:
+			spec = ssb.ExploreIndex(int64(i), spec)
+		case 2:
+			inner := spec
+			spec = ssb.ExploreFields(func(efsb builder.ExploreFieldsSpecBuilder) {
+				efsb.Insert("x", ssb.Matcher())
+				efsb.Insert("y", inner)
+			})
+		case 3:
+			spec = ssb.ExploreInterpretAs("adl", spec)
+			underIA = true
+		case 4:
+			spec = ssb.ExploreRange(0, 3, spec)
+		case 5:
+			spec = ssb.ExploreUnion(ssb.Matcher(), spec)
+		}
+	}
+	var node datamodel.Node = spec.Node()
+	_, perr := selector.ParseSelector(node)
+	verifrt.Assume(perr == nil)
+	err := selectorvalidator.ValidateMaxRecursionDepth(node, 100)
+	verifrt.Eventf("nesting=%d start=%d ok=%v err=%v", nest, start, ok, err)
+	if nest >= 32 {
+		verifrt.Cover("nesting-32-or-more")
+	}
+	if ok {
+		verifrt.Assert(err == nil, "C08 selector whose recursions are all limited to <= 100 was rejected")
+		verifrt.Cover("accepted")
+	} else {
+		verifrt.AssertKF(err != nil, "C08 selector with an unbounded or too-deep recursion passed validation", "C08-F1", underIA)
+		verifrt.Cover("rejected")
+	}
+	verifrt.Reached("end-deepchain")
+}
